@@ -152,8 +152,8 @@ def parse_fn_blocks(lines, origin):
                 elif s.startswith('//@entry'):
                     cur = []
                     fs.inserts.append(('entry', None, 1, None, cur))
-                elif s.startswith('//@before') or s.startswith('//@after'):
-                    m = re.match(r'^//@(before|after)\s+`(.*)`\s*(\d+)?\s*$', s)
+                elif s.startswith('//@before') or s.startswith('//@after') or s.startswith('//@tail'):
+                    m = re.match(r'^//@(before|after|tail)\s+`(.*)`\s*(\d+)?\s*$', s)
                     if not m:
                         raise AssembleError('%s:%d bad anchor' % (origin, i + 1))
                     cur = []
@@ -441,6 +441,19 @@ def expand_fn(fs, assumed_override=False, notes=None):
                     lost.append('%s `%s` #%d' % (kind, arg, n))
                     continue
                 (ins_before if kind == 'before' else ins_after).setdefault(li, []).append(block)
+            elif kind == 'tail':
+                # Rtail: `EXPR` (single-line tail expression) -> `let verif_tail = EXPR; <ghost> verif_tail`
+                li = find_line_with(blines, arg, n, 0)
+                if li is None:
+                    lost.append('tail `%s` #%d' % (arg, n))
+                    continue
+                ln0 = blines[li]
+                st = ln0.strip()
+                if st.endswith(';') or st.endswith('{') or st.endswith(','):
+                    raise AssembleError('%s: //@tail `%s` is not a single-line tail expression' % (where, arg))
+                ind = ln0[:len(ln0) - len(ln0.lstrip())]
+                blines[li] = '%slet verif_tail = %s;\n%s\n%sverif_tail' % (ind, st, block, ind)
+                deltas.append(dict(rule='Rtail', original=st, rewritten='let verif_tail = %s; <ghost> verif_tail' % st))
             elif kind == 'loop':
                 if btoks is None:
                     btoks = code_tokens(body)
@@ -472,6 +485,10 @@ def expand_fn(fs, assumed_override=False, notes=None):
                         lost.append('loop %d is not a for loop (binder)' % n); continue
                     inline.append(('off', in_pos, ' %s:' % binder, 'binder'))
         # apply: convert everything to absolute offsets in body
+        if any(k == 'tail' for (k, _a, _n, _b, _c) in fs.inserts):
+            if inline and any(it[0] == 'off' for it in inline):
+                raise AssembleError('%s: //@tail cannot be combined with //@loop in one function' % where)
+            body = '\n'.join(blines)   # elements may now hold embedded newlines; offsets below stay consistent
         starts = [0]
         for l in blines:
             starts.append(starts[-1] + len(l) + 1)
@@ -497,7 +514,7 @@ def expand_fn(fs, assumed_override=False, notes=None):
     return out, meta
 
 
-def expand_type(srcrel, kind, name):
+def expand_type(srcrel, kind, name, keep=None):
     src = get_source(srcrel)
     try:
         loc = src.find_type(kind, name)
@@ -506,7 +523,16 @@ def expand_type(srcrel, kind, name):
     text = src.text[loc['start']:loc['end']]
     deltas = []
     if loc['attrs'].strip():
-        deltas.append(dict(rule='R9', original=loc['attrs'].strip(), rewritten='(dropped; specs in overlay)'))
+        deltas.append(dict(rule='R9', original=loc['attrs'].strip(),
+                           rewritten=('#[derive(%s)]' % keep) if keep else '(dropped; specs in overlay)'))
+    if keep:
+        text = '#[derive(%s)]\n' % keep + text
+    if text.startswith('pub(crate) '):
+        text = 'pub ' + text[len('pub(crate) '):]
+        deltas.append(dict(rule='R8', original='pub(crate)', rewritten='pub'))
+    if text.startswith('struct ') or text.startswith('enum '):
+        text = 'pub ' + text
+        deltas.append(dict(rule='R8', original='(private)', rewritten='pub'))
     meta = dict(name='%s %s' % (kind, name), file=srcrel, lines=[loc['line_start'], loc['line_end']],
                 sha256=hashlib.sha256(text.encode()).hexdigest(), mode='type', deltas=deltas, props=[])
     return text + '\n', meta
@@ -542,7 +568,11 @@ def assemble(unit_path):
                 process(os.path.join(CONTRACTS, s.split()[1]), depth + 1)
             elif s.startswith('//@type '):
                 a = s.split()
-                t, m = expand_type(a[1], a[2], a[3])
+                keep = None
+                for x in a[4:]:
+                    if x.startswith('keep='):
+                        keep = x[5:].replace(',', ', ')
+                t, m = expand_type(a[1], a[2], a[3], keep)
                 emit(t, m)
             elif s.startswith('//@use '):
                 a = split_args(s[len('//@use '):])
